@@ -20,7 +20,7 @@ TRUSTED = ["extraction: ExtrOcamlBasic only; OCaml 4.13.1; comp/bits/driver.ml",
            "meaning of __builtin_popcountll = number of 1 digits (BitsetModel.popcount)"]
 ASSUMPTIONS = ["bitset: N >= 1; set/reset/flip/test/operator[] only with pos < N (std::bitset throws there; documented precondition)",
                "integer constructor argument and shift amounts are any 64-bit values",
-               "pcg bounded draw: bound > 0; termination of the rejection loop is not proved (partial)",
+               "pcg bounded draw: bound > 0 (bound = 0 divides by zero); generator state is a uint64 with an odd increment (every seeded state)",
                "insertion_sort: comp asymmetric and transitive; element swap is value exchange"]
 
 def nontrivial(cid, lines, ri):
